@@ -148,6 +148,17 @@ def schemas():
         'ident-mixed2': ([P(IDENT, ca, cb), P(H2, ca, ca)], P(H2, ca, cb)),
         'ord-ident-binary': ([P(IDENT, ca, cb), P(H2, ca, cc), P(IDENT, cb, ca)], P(H2, cb, cc)),
         'ord-mono-modal': ([L(a), M(b), M(c)], O('Conjunction', M(O('Conjunction', a, b)), M(O('Conjunction', a, c)))),
+        # a possibility whose body already holds at the current world: the witness must still be a new world
+        'poss-body-here': ([M(a), a, L(b)], b),
+        'poss-body-here2': ([M(Neg(a)), Neg(a), L(O('MaterialConditional', a, b))], O('Disjunction', a, b)),
+        'poss-body-here3': ([a, L(O('MaterialConditional', a, b)), M(a)], b),
+        # the tableau forks BEFORE the world / constant generating nodes are worked on: each fork keeps its own books
+        'fork-then-limit': ([O('Disjunction', L(O('Conjunction', M(a), M(Neg(a)))), L(O('Conjunction', M(b), M(Neg(b)))))], A(4)),
+        'fork-then-limit2': ([O('Disjunction', L(O('Conjunction', M(a), M(Neg(a)))), L(O('Conjunction', M(b), M(Neg(b))))), c], A(4)),
+        'fork-then-witnesses': ([O('Disjunction', a, b), Neg(a), Q('Existential', x, Fx), Q('Existential', x, Gx)],
+                                O('Disjunction', Fb, Gb)),
+        'fork-then-witnesses2': ([O('Disjunction', a, b), Q('Existential', x, Fx), Q('Existential', x, Gx), Q('Existential', x, P(H2, x, cb))],
+                                 O('Disjunction', a, O('Disjunction', Fb, Gb))),
     }
     return {k: {'prems': v[0], 'conc': v[1]} for k, v in out.items()}
 
@@ -210,6 +221,10 @@ def systematic(prop_only=False):
                 for la, ta in ((a, 'a'), (Neg(a), 'na')):
                     for lb, tb in ((b, 'b'), (Neg(b), 'nb')):
                         add(f'{tag}:cell-{ta}-{tb}', [S, la, lb], c)
+                # the literal that closes against the rule's output is produced LATER, by another (branching) rule
+                for la, ta in ((a, 'a'), (Neg(a), 'na')):
+                    for lb, tb in ((b, 'b'), (Neg(b), 'nb')):
+                        add(f'{tag}:late-{ta}-{tb}', [lb, O('Disjunction', la, la)], S)
     if prop_only:
         return out
     for q in ('Existential', 'Universal'):
